@@ -132,7 +132,31 @@ func buildDoc(edits []pPatch) ([]byte, error) {
 	for _, e := range edits {
 		doc = setPath(doc, strings.Split(e.Path, "."), e)
 	}
+	// a list element the document does not have (e.g. scheme 1 deleted while scheme 2 stays) leaves no hole: lists are dense
+	doc = compactLists(doc, "")
 	return json.MarshalIndent(doc, "", "  ")
+}
+
+// compactLists drops the padding entries (nil) setPath inserted for absent elements of object lists; an explicit null the
+// author wrote at a leaf position is not inside an object list and is kept.
+func compactLists(v any, key string) any {
+	switch t := v.(type) {
+	case map[string]any:
+		for k, x := range t {
+			t[k] = compactLists(x, k)
+		}
+		return t
+	case []any:
+		out := make([]any, 0, len(t))
+		for _, x := range t {
+			if x == nil && key == "securitySchemes" {
+				continue
+			}
+			out = append(out, compactLists(x, ""))
+		}
+		return out
+	}
+	return v
 }
 
 func cfgProject(cc *cfgCase) *pCase {
